@@ -60,6 +60,10 @@ async def run(
     await asyncio.gather(*setup_done_events)
 
     # Start simulator processes
+    # (advance_progress may read any simulator's rt_start before that
+    # simulator's own task has run for the first time)
+    for sim in world.sims.values():
+        sim.rt_start = perf_counter()
     processes: List[asyncio.Task[None]] = []
     for sim in world.sims.values():
         process = world.loop.create_task(
